@@ -441,14 +441,21 @@ def fsView (t : Tree) : View where
       | .found (.file _) => .err .notDir
       | l => .err (lookupErr l)
   exist e :=
-    let p := match e with
-      | .file id ext => pathOfEntry id (some ext)
-      | .dir id => pathOfEntry id none
-    match p with
-    | none => false
-    | some p => match fsResolve t p with
-      | .found _ => true
-      | _ => false
+    match e with
+    | .file id ext =>
+      match pathOfEntry id (some ext) with
+      | none => false
+      | some p => match fsResolve t p with
+        | .found _ => true
+        | _ => false
+    | .dir id =>
+      match pathOfEntry id none with
+      | none => false
+      | some p => match fsResolve t p with
+        | .found .dir => true
+        -- a (malformed) id ending in `.` gives a path ending in `/`, which only names directories
+        | .found (.file _) => !((splitDot id).getLast? == some [] && !p.isEmpty)
+        | _ => false
 
 /-! ## Embedded -/
 
